@@ -8,6 +8,7 @@ DecodeReason(d, want, bytes, pfx) ==
   ELSE IF d.res # "ok" THEN pfx \o "valid_encoding_rejected"
   ELSE IF d.n # Len(bytes) THEN pfx \o "consumed_length"
   ELSE IF d.v # want THEN pfx \o "decoded_value"
+  ELSE IF "append_safe" \in DOMAIN d /\ ~d.append_safe THEN pfx \o "decoded_layers_share_memory"    \* the caller appended to one layer's bitrate list
   ELSE ""
 MarshalReason(e) ==
   IF e.res = "panic" THEN "marshal_panic"
